@@ -294,41 +294,56 @@ fn leaf_runtime_feature_cache() {
 // nondeterministic MODEL of the callee (clauses = the Verus-proved contract of parse_with_config_and_uninit_headers):
 // it may write any number k <= len of leading slots, returns any status, and on Complete leaves `self.headers` = that prefix.
 static SENTINEL: &str = "sentinel";
+// what the model callee observed: number of calls, the buffer and config it was given, the result it returned
+static mut M_CALLS: usize = 0;
+static mut M_BUF: (usize, usize) = (0, 0);
+static mut M_CFG: usize = 0;
+static mut M_RES: u8 = 0;
+static mut M_N: usize = 0;
+fn model_result() -> Result<usize> {
+    let which: u8 = kani::any_where(|w: &u8| *w <= 8);
+    let n: usize = kani::any();
+    unsafe { M_RES = which; M_N = n; }
+    decode(which, n)
+}
+fn decode(which: u8, n: usize) -> Result<usize> {
+    match which {
+        0 => Ok(Status::Complete(n)),
+        1 => Ok(Status::Partial),
+        2 => Err(Error::HeaderName), 3 => Err(Error::HeaderValue), 4 => Err(Error::NewLine), 5 => Err(Error::Status),
+        6 => Err(Error::Token), 7 => Err(Error::TooManyHeaders), _ => Err(Error::Version),
+    }
+}
 impl<'h, 'b> Request<'h, 'b> {
-    fn kani_model_uninit(&mut self, _buf: &'b [u8], _config: &ParserConfig, headers: &'h mut [MaybeUninit<Header<'b>>]) -> Result<usize> {
+    fn kani_model_uninit(&mut self, buf: &'b [u8], config: &ParserConfig, headers: &'h mut [MaybeUninit<Header<'b>>]) -> Result<usize> {
+        unsafe { M_CALLS += 1; M_BUF = (buf.as_ptr() as usize, buf.len()); M_CFG = config as *const ParserConfig as usize; }
         let k: usize = kani::any_where(|k: &usize| *k <= headers.len());
         let mut i = 0;
         while i < k { headers[i] = MaybeUninit::new(Header { name: "written", value: b"" }); i += 1; }
-        let which: u8 = kani::any();
-        match which {
-            0 => {
-                let (init, _) = headers.split_at_mut(k);
-                self.headers = unsafe { &mut *(init as *mut [MaybeUninit<Header<'b>>] as *mut [Header<'b>]) };
-                Ok(Status::Complete(kani::any()))
-            }
-            1 => Ok(Status::Partial),
-            _ => Err(Error::TooManyHeaders),
+        let r = model_result();
+        if let Ok(Status::Complete(_)) = r {
+            let (init, _) = headers.split_at_mut(k);
+            self.headers = unsafe { &mut *(init as *mut [MaybeUninit<Header<'b>>] as *mut [Header<'b>]) };
         }
+        r
     }
 }
 impl<'h, 'b> Response<'h, 'b> {
-    fn kani_model_uninit(&mut self, _buf: &'b [u8], _config: &ParserConfig, headers: &'h mut [MaybeUninit<Header<'b>>]) -> Result<usize> {
+    fn kani_model_uninit(&mut self, buf: &'b [u8], config: &ParserConfig, headers: &'h mut [MaybeUninit<Header<'b>>]) -> Result<usize> {
+        unsafe { M_CALLS += 1; M_BUF = (buf.as_ptr() as usize, buf.len()); M_CFG = config as *const ParserConfig as usize; }
         let k: usize = kani::any_where(|k: &usize| *k <= headers.len());
         let mut i = 0;
         while i < k { headers[i] = MaybeUninit::new(Header { name: "written", value: b"" }); i += 1; }
-        let which: u8 = kani::any();
-        match which {
-            0 => {
-                let (init, _) = headers.split_at_mut(k);
-                self.headers = unsafe { &mut *(init as *mut [MaybeUninit<Header<'b>>] as *mut [Header<'b>]) };
-                Ok(Status::Complete(kani::any()))
-            }
-            1 => Ok(Status::Partial),
-            _ => Err(Error::TooManyHeaders),
+        let r = model_result();
+        if let Ok(Status::Complete(_)) = r {
+            let (init, _) = headers.split_at_mut(k);
+            self.headers = unsafe { &mut *(init as *mut [MaybeUninit<Header<'b>>] as *mut [Header<'b>]) };
         }
+        r
     }
 }
 const CAP: usize = 3;
+const WB: usize = 20;
 #[kani::proof]
 #[kani::unwind(5)]
 #[kani::stub(Request::parse_with_config_and_uninit_headers, Request::kani_model_uninit)]
@@ -336,10 +351,19 @@ fn leaf_request_wrapper_restores() {
     let mut arr = [Header { name: SENTINEL, value: b"" }; CAP];
     let cap: usize = kani::any_where(|c: &usize| *c <= CAP);
     let p0 = arr.as_ptr() as usize;
-    let buf: [u8; 1] = kani::any();
+    let bufa: [u8; WB] = kani::any();
+    let blen: usize = kani::any_where(|l: &usize| *l <= WB);
+    let buf = &bufa[..blen];
     let cfg = ParserConfig::default();
     let mut req = Request::new(&mut arr[..cap]);
-    let r = req.parse_with_config(&buf, &cfg);
+    let r = req.parse_with_config(buf, &cfg);
+    // pure pass-through: the callee is called exactly once, with this buffer and this config, and its result is returned
+    unsafe {
+        assert!(M_CALLS == 1);
+        assert!(M_BUF == (buf.as_ptr() as usize, buf.len()));
+        assert!(M_CFG == &cfg as *const ParserConfig as usize);
+        assert!(r == decode(M_RES, M_N));
+    }
     match r {
         Ok(Status::Complete(_)) => { assert!(req.headers.len() <= cap); assert!(req.headers.as_ptr() as usize == p0 || req.headers.len() == 0); }
         _ => { assert_eq!(req.headers.len(), cap); assert!(req.headers.as_ptr() as usize == p0 || cap == 0); }
@@ -352,10 +376,18 @@ fn leaf_response_wrapper_restores() {
     let mut arr = [Header { name: SENTINEL, value: b"" }; CAP];
     let cap: usize = kani::any_where(|c: &usize| *c <= CAP);
     let p0 = arr.as_ptr() as usize;
-    let buf: [u8; 1] = kani::any();
+    let bufa: [u8; WB] = kani::any();
+    let blen: usize = kani::any_where(|l: &usize| *l <= WB);
+    let buf = &bufa[..blen];
     let cfg = ParserConfig::default();
     let mut resp = Response::new(&mut arr[..cap]);
-    let r = resp.parse_with_config(&buf, &cfg);
+    let r = resp.parse_with_config(buf, &cfg);
+    unsafe {
+        assert!(M_CALLS == 1);
+        assert!(M_BUF == (buf.as_ptr() as usize, buf.len()));
+        assert!(M_CFG == &cfg as *const ParserConfig as usize);
+        assert!(r == decode(M_RES, M_N));
+    }
     match r {
         Ok(Status::Complete(_)) => { assert!(resp.headers.len() <= cap); assert!(resp.headers.as_ptr() as usize == p0 || resp.headers.len() == 0); }
         _ => { assert_eq!(resp.headers.len(), cap); assert!(resp.headers.as_ptr() as usize == p0 || cap == 0); }
